@@ -277,14 +277,39 @@ def run_operators(tier, seed):
         "v+=w": lambda v, w, k: _ip(v, "__iadd__", w), "v-=w": lambda v, w, k: _ip(v, "__isub__", w),
         "v*=k": lambda v, w, k: _ip(v, "__imul__", k), "v/=k": lambda v, w, k: _ip(v, "__itruediv__", k),
     }
+    # histories: a derived vector is updated in place; the vector it was derived from (which nobody assigned to) and the
+    # derived vector itself are then read, on the symbolic side and on the numeric side
+    def hist(derive, meth, which):
+        def f(v, w, k):
+            q = derive(v, k)
+            _ip(q, meth, w if meth in ("__iadd__", "__isub__") else k)
+            return v if which == "source" else q
+        return f
+    derivers = {"rotateZ(k)": (2, lambda v, k: v.rotateZ(k)), "rotateX(k)": (3, lambda v, k: v.rotateX(k)),
+                "scale2D(k)": (3, lambda v, k: v.scale2D(k)), "to_Vector3D()": (4, lambda v, k: v.to_Vector3D()),
+                "to_Vector2D()": (3, lambda v, k: v.to_Vector2D()), "+v": (2, lambda v, k: +v), "copy.copy": (2, lambda v, k: copy.copy(v))}
+    mindim = {}
+    for dname, (md, d) in derivers.items():
+        for meth, sym_ in (("__iadd__", "+="), ("__imul__", "*=")):
+            for which in ("source", "derived"):
+                nm = f"{which} after q=v.{dname}; q{sym_}{'w' if sym_ == '+=' else 'k'}"
+                forms[nm] = hist(d, meth, which)
+                mindim[nm] = md
     scal = {"v@w": lambda v, w, k: v @ w, "abs(v)": lambda v, w, k: abs(v), "v**2": lambda v, w, k: v**2}
     for dim in (2, 3, 4):
         for s_self in R.SYSTEMS[dim]:
             for s_other in ([R.SYSTEMS[dim][0], R.SYSTEMS[dim][-1], s_self] if tier == "quick" else R.SYSTEMS[dim]):
                 mom = r.random() < 0.5
                 for fname, f in {**forms, **scal}.items():
+                    if mindim.get(fname, 2) > dim:
+                        continue
                     sv, ssyms = sym_vector(s_self, mom, "a")
-                    sw, osyms = sym_vector(s_other, False, "b")
+                    if "to_Vector" in fname:  # the in-place operand must have the derived vector's dimension
+                        ddim = 3 if "3D" in fname else 2
+                        s_o = s_other[: ddim - 1]
+                    else:
+                        s_o = s_other
+                    sw, osyms = sym_vector(s_o, False, "b")
                     kq = gen.dyadic(r, 0.5, 3)
                     res.evaluations += 1
                     cell = f"op:{fname}|{dim}|{R.sysname(s_self)}|{R.sysname(s_other)}|{'mom' if mom else 'gen'}"
@@ -299,7 +324,9 @@ def run_operators(tier, seed):
                         if fname in ("v-w", "v-=w", "-v") and dim == 4 and (s_self[2] == "tau" or s_other[2] == "tau"):
                             continue  # negative times are not representable in tau storage
                         try:
-                            al, bl = LVec(a_rv, s_self, mom), LVec(b_rv, s_other, False)
+                            if len(s_o) != len(s_other):
+                                b_rv = R.project(b_rv, len(s_o) + 1)
+                            al, bl = LVec(a_rv, s_self, mom), LVec(b_rv, s_o, False)
                             al.exact_coords(), bl.exact_coords()
                         except R.NotRepresentable:
                             continue
